@@ -60,7 +60,13 @@ def run(chk, tier):
     import putback
     npb = putback.run(chk, P)
     chk.floor("R-PUTBACK", "adopted-child fields", npb, 2)
-    chk.decided += ['a failed insertion gives every adopted child back completely (parent and sibling links restored by the put-back path)',
+    chk.rule("R-MEMCHILD", "fixup_sets() gives every kind of memory child its parent's cpuset: with the walked child's type bound to NUMANODE and to MEMCACHE in turn, a copy of the parent's cpuset and one of its "
+             "complete_cpuset into the child are reached (in fixup_sets or in a helper that receives the child)")
+    import memchild
+    nmc = memchild.run(chk, P)
+    chk.floor("R-MEMCHILD", "memory types explored", nmc, 2)
+    chk.decided += ['memory-side caches are given their parent cpuset by fixup_sets() exactly like NUMA nodes',
+                    'a failed insertion gives every adopted child back completely (parent and sibling links restored by the put-back path)',
                     'the dont_merge flag of a Group level is read from the level that is about to be merged (not from its neighbour): Groups that asked not to be merged survive the level filtering, and no non-Group attribute is read as a Group attribute',
                     'an identifier imported from XML never leaves the gp_index allocator at or below it (boundary evaluation)',
                     "indexes into counted array fields stay below the count in every function that the bound analysis covers (19 functions frozen out of scope)",
